@@ -140,7 +140,7 @@ def run(chk, replay=None):
     # TSan observer (warm runs: any race report is illegal)
     try:
         tdir = build("tsan", targets=["conc_drive"])
-        env = dict(os.environ, TSAN_OPTIONS="halt_on_error=0 report_signal_unsafe=0 exitcode=0")
+        env = dict(os.environ, TSAN_OPTIONS="halt_on_error=0 report_signal_unsafe=0 exitcode=0", CONC_NOEVENTS="1")
         raw, err, stderr = run_driver(tdir, "warm", 8, 200 if quick else 1000, chk.seed, "tsan", env=env, timeout=1800)
         races = re.findall(r"WARNING: ThreadSanitizer: data race.*?(?=\n\n|\Z)", stderr, flags=re.S)
         chk.cov["tsan_observer"] = {"ran": raw is not None, "race_reports": len(races)}
